@@ -286,7 +286,7 @@ def write_evidence(pid, ev):
         f.write("\n")
 
 
-def native_replay(pid, spec, src_file, harness_fn, pbs, keep_overlay=False):
+def native_replay(pid, spec, src_file, harness_fn, pbs, keep_overlay=False, expect=None):
     """Append the concrete-playback tests to the overlay and run them natively (one build).
     Returns (failing_pb or None, ran_ok, log_excerpt)."""
     if isinstance(pbs, dict):
@@ -316,9 +316,24 @@ def native_replay(pid, spec, src_file, harness_fn, pbs, keep_overlay=False):
         msgs = re.findall(r"panicked at ([^\n]*)\n([^\n]*)", out)
         note = "\n".join(l for l in out.splitlines() if l.startswith("test ") and "..." in l)
         note += "\n" + "\n".join(f"panicked at {a} {b}" for a, b in msgs)
+        # A native failure only counts as a reproduction if it is THE failure the solver reported: when the failed
+        # check is one of the harness's property assertions ("C<nn>..." message) the panic message must be that
+        # assertion's; a different panic (e.g. real code running where Kani had a stub) is not a reproduction.
+        blocks = re.split(r"\n---- (\S+) stdout ----\n", out)
+        panic_of = {}
+        for i in range(1, len(blocks) - 1, 2):
+            panic_of[blocks[i]] = blocks[i + 1]
+        prop_descs = [d for d in (expect or []) if re.match(r"^C\d\d", d)]
         for pb in uniq:
-            if any(fn.endswith("::" + pb["test_name"]) for fn in failed_names):
-                return pb, True, note[:3000]
+            hit = [fn for fn in failed_names if fn.endswith("::" + pb["test_name"])]
+            if not hit:
+                continue
+            if prop_descs and expect and len(prop_descs) == len(expect):
+                body = panic_of.get(hit[0], out)
+                if not any(d in body for d in prop_descs):
+                    note += f"\n(test {pb['test_name']} failed natively, but not with the reported assertion)"
+                    continue
+            return pb, True, note[:3000]
         return None, True, note[:3000]
     finally:
         if not keep_overlay:
@@ -477,7 +492,7 @@ def run_property(pid):
                                              detail="solver gave no concrete counterexample to replay: "
                                              + "; ".join(fc["desc"] for fc in unknown)))
                     continue
-                chosen, ran_ok, note = native_replay(pid, spec, r["file"], fn, pbs[:8])
+                chosen, ran_ok, note = native_replay(pid, spec, r["file"], fn, pbs[:8], expect=[fc["desc"] for fc in unknown])
                 reproduced = chosen is not None
                 if reproduced:
                     path = write_replay_file(pid, fn, r["file"], chosen, unknown, note)
@@ -618,7 +633,9 @@ def do_replay(path):
     spec = load_spec(pid)
     code = "\n".join(l for l in text.splitlines() if not l.startswith("// "))
     mt = re.search(r"fn (kani_concrete_playback_\w+)\(", code)
-    chosen, ran_ok, note = native_replay(pid, spec, src, fn, [dict(code=code, test_name=mt.group(1))])
+    mh = re.search(r"^// failed checks: (.*)$", text, re.M)
+    expect = [d.strip() for d in mh.group(1).split("; ")] if mh else None
+    chosen, ran_ok, note = native_replay(pid, spec, src, fn, [dict(code=code, test_name=mt.group(1))], expect=expect)
     print(note)
     if not ran_ok:
         print("replay: could not run")
